@@ -11,6 +11,7 @@ from ..engine import Path
 from ..loops import InvLoop
 from .plainops import build_plain, set_cell, get_cell, T0
 from z3 import StringVal, String, SubString, StringSort
+from ..engine import Unsupported
 
 XB = Const('chunk_b', Bytes); XS = String('chunk_s'); XV = Const('x', Val); ERR = Const('err', Val)
 
@@ -213,6 +214,11 @@ def chain_of(eng, q, obs):
 
 
 class FileTerm(FnCase):
+    # the clauses are about the SHAPE of a pipeline (which operator closures it is made of, found by their qualified names): a refactoring can
+    # build the same behaviour from other closures (e.g. encode / decode delegating to one private factory).  A refuted shape is reported as a
+    # violation only together with a failing file round trip from the bounded tier of the same property; alone it is an undecided obligation.
+    internal_representation = True
+
     def __init__(self, name, module, factory, args, kws, expect, needs_source=True):
         self.name = f'{name}/term'; self.module = module; self.factory = factory; self.args = args; self.kws = kws; self.expect = expect
         self.needs_source = needs_source
